@@ -382,6 +382,22 @@ Qed.
 Lemma find_app_some : forall (A : Type) (f : A -> bool) l l' r, find f l = Some r -> find f (l ++ l') = Some r.
 Proof. induction l; cbn; intros; try discriminate. destruct (f a); auto. Qed.
 
+Lemma set_dqueue_binv : forall l s, BInv s -> BInv (set_dqueue l s).
+Proof. intros l s H. exact H. Qed.
+Lemma erase_queued_binv : forall c s, BInv s -> BInv (erase_queued c s).
+Proof.
+  intros c s H. unfold erase_queued. destruct (get_row c (rows s)) as [r|]; auto.
+  destruct (is_conn r); auto. apply abort_conn_binv; auto.
+Qed.
+Lemma fire_fold_binv : forall l s, BInv s -> BInv (fold_left (fun s c => erase_queued c s) l s).
+Proof. induction l; intros s H; cbn; auto. apply IHl. apply erase_queued_binv; auto. Qed.
+Lemma disc_fire_binv : forall s, BInv s -> BInv (disc_fire s).
+Proof. intros s H. unfold disc_fire. apply set_dqueue_binv. apply fire_fold_binv; auto. Qed.
+Lemma disc_delay_binv : forall c s, BInv s -> BInv (disc_delay c s).
+Proof.
+  intros c s H. unfold disc_delay. destruct (get_row c (rows s)) as [r|]; [destruct (is_conn r)|]; auto.
+Qed.
+
 Lemma step_binv : forall s o, BInv s -> BInv (step s o).
 Proof.
   intros s o H. destruct o; cbn [step].
@@ -415,6 +431,8 @@ Proof.
   - unfold with_conn. apply with_row_binv; auto with c16b.
   - exact H.
   - exact H.
+  - apply disc_delay_binv; auto.
+  - apply disc_fire_binv; auto.
 Qed.
 
 Theorem block_owners_inv : forall sd ops, BInv (run sd ops).
